@@ -264,6 +264,8 @@ def run(ctx):
             viol("solve -e 1e-300 exits 0: the requested error is not enforced", {"args": ["solve", "-e", "1e-300", "x.inkfem"], "text": text})
         if r4.status != 0:
             viol("solve -e 1e6 fails", {"args": ["solve", "-e", "1e6", "x.inkfem"], "text": text})
+        if r3.status != 0 and "x.inkfemsol" in r3.files:
+            viol("solve -e 1e-300 fails (exit %s) and leaves a %d-byte x.inkfemsol behind" % (r3.status, len(r3.files["x.inkfemsol"] or "")), {"args": ["solve", "-e", "1e-300", "x.inkfem"], "text": text})
         # a bound nothing can meet is enforced as given, not replaced by a default
         for e in ("-1", "0"):
             r6 = cli.run(ctx, ["solve", "-e", e, "x.inkfem"], files={"x.inkfem": text}, name="c13")
